@@ -234,6 +234,11 @@ func runStandalone(r *saReader, data []byte, tabs map[string][]byte, g *Group, k
 	case "trunc":
 		in.data = data[:k:k]
 		in.src = bytes.NewReader(in.data)
+		if k%2 == 1 {
+			// the way header.Info.TableReader hands a table over: a section whose Size() is the length the
+			// directory announces, on top of a file that ends early
+			in.src = io.NewSectionReader(bytes.NewReader(in.data), 0, int64(len(data)))
+		}
 	case "failat":
 		fs = &failSeeker{data: data, k: k}
 		in.data, in.src = data, fs
